@@ -13,6 +13,21 @@ A case is one file set for one shipped (non-razor) method:
          "prot": protein cells (see Model/C10.lean RawRow), "decoy": DIA-NN Decoy flag,
          "bare": the intended stripped peptide (generator's bookkeeping for the oracle; None = malformed)}
 
+Two further kinds of case exercise the glue AROUND parse_evidence_files (how the list of maps is built and
+handed on), because the property quantifies over "several evidence files each with its own digestion parameters"
+and "every input-type/remap combination of the shipped methods":
+  {"shared": {"maps": [...], "calls": [{"method", "mokapot", "colseed", "files"}, ...]}}
+      parse_evidence_files called once per entry with ONE list object, as run_picked_group_fdr hands one list to
+      every method; every call must return what the model gives for it alone and leave the list as it was.
+  {"run": {"methods": [...], "inputs": {family: {"mokapot", "colseed", "files"}}, "fasta": [[[header, seq]..]..] | None,
+           "decoys_in_fasta": bool, "digest": [{"enzyme","mc","min","max","special","mode"}..], "maps": [...], "via": "inproc"|"cli"}}
+      the tool's entry point (picked_group_fdr.main(argv), or `python -m picked_group_fdr argv` in a process of its
+      own for via="cli") with the ingestion recorded: maps built by the tool from --fasta with per-file
+      --enzyme/--cleavages/--min-length/--max-length/--special-aas/--digestion lists (or read from
+      --peptide_protein_map files); with several methods the run is repeated in the reversed method order and with
+      every method alone.  Model and oracle get the per-file maps from the HARNESS's digest of the same FASTA
+      (props.C08.spec + props.C09.db_records/listing, rule table written down in this file).
+
 Numbers: PEP cells are written with repr(float) and re-read by float() (csv) or pandas' C parser (DIA-NN;
 its agreement with float() on the literal grid is asserted once per process).  FragPipe probabilities are
 (1024-k)/1024 so `1 - p` is exact and `1 - p + 1e-16` is the correctly rounded image of the model's exact
@@ -24,6 +39,7 @@ import os
 import random
 import re
 import shutil
+import sys
 import tempfile
 from fractions import Fraction
 from pathlib import Path
@@ -44,6 +60,7 @@ FRAG_K = [0, 1, 2, 5, 10, 51, 102, 512, 1023, 1024]
 SAGE_X = [0, -1, -2, -3, -4, -6, -7, -8]
 EPS16 = Fraction(1e-16)
 
+RUN_SHARE = 0.06  # share of the generated cases that are in-process runs of the entry point
 SCORE_CLASSES = None  # filled lazily: {scoreType: [method names]} for the non-razor shipped methods
 
 
@@ -341,6 +358,304 @@ def cli_ok(case):
     )
 
 
+# ------------------------------------------------------------------------------------------
+# runs through the tool's entry point (picked_group_fdr.main -> run_picked_group_fdr -> run_method):
+# the glue around parse_evidence_files -- maps built from --fasta with per-file digestion parameters or read
+# from --peptide_protein_map files, ONE map list shared by all methods of the run
+# ------------------------------------------------------------------------------------------
+# cleavage rules of the enzymes the generator uses, written down here (not read from the tree under test)
+ENZ = {
+    "trypsin": (["K", "R"], ["P"], []),
+    "trypsinp": (["K", "R"], [], []),
+    "lys-c": (["K"], ["P"], []),
+    "arg-c": (["R"], ["P"], []),
+}
+RUN_BLOCKS = BARE + ["PLLLR"]
+FAMILY_FLAG = {"maxquant": "--mq_evidence", "perc": "--perc_evidence", "fragpipe": "--fragpipe_psm",
+               "sage": "--sage_results", "diann": "--diann_reports"}
+DIGEST_FLAGS = [("--enzyme", "enzyme"), ("--cleavages", "mc"), ("--min-length", "min"), ("--max-length", "max"),
+                ("--special-aas", "special"), ("--digestion", "mode")]
+HARNESS_DIR = str(Path(__file__).resolve().parent.parent)
+
+
+def family_of(score_type):
+    """which input flag a score type reads"""
+    fmt, _ = fmt_of(score_type, False)
+    return "perc" if fmt == "native" else fmt
+
+
+def eff_digest(run):
+    """the parameter sets the command line describes: a parameter given once holds for every file, so a list
+    whose entries all agree is one parameter set (one map for all files)"""
+    dg = run.get("digest") or []
+    if len(dg) > 1 and all(p == dg[0] for p in dg):
+        return dg[:1]
+    return dg
+
+
+def own_digest_maps(run):
+    """per digestion-parameter set: peptide -> proteins computed by the harness's own digest (C08's declarative
+    rule `spec`, C09's database/decoy statement and 'each protein once, in database order' listing) -- nothing
+    of the code under test is involved"""
+    from props.C09 import db_records, listing, special_list
+
+    records = [(h, s) for f in run["fasta"] for h, s in f]
+    db = "target" if run.get("decoys_in_fasta") else "concat"
+    maps = []
+    for p in eff_digest(run):
+        recs = db_records(records, "first_space", db, special_list(p["special"]))
+        m = listing(recs, ENZ[p["enzyme"]], p["min"], p["max"], p["mode"], p["mc"], True, False)
+        maps.append([[k, m[k]] for k in sorted(m)])
+    return maps
+
+
+def run_maps(run):
+    """the digest maps a run's remapping methods must use (model / oracle side)"""
+    if run.get("fasta"):
+        return own_digest_maps(run)
+    return run.get("maps") or []
+
+
+def sub_case(run, method, maps=None):
+    """the ordinary ingestion case one method of a run amounts to"""
+    inp = run["inputs"][family_of(method_score_type(method))]
+    return {"method": method, "mokapot": inp.get("mokapot", False), "colseed": inp.get("colseed", 0),
+            "maps": run_maps(run) if maps is None else maps, "files": inp["files"]}
+
+
+def _pil_json(res):
+    return [[k, "nan" if v[0] != v[0] else rat(float(v[0])), list(v[1])] for k, v in res.items()]
+
+
+def _degenerate(exc_text, tb_text):
+    """runs in which no protein group has any evidence (DESIGN.md §4): bestPEP methods die in do_competition
+    (`zip(*[])`), multPEP methods already in MultPEPScore._get_optimal_div (empty array)"""
+    return "not enough values to unpack" in exc_text or (
+        "too many indices for array" in exc_text and "_get_optimal_div" in tb_text
+    )
+
+
+def record_entry(job):
+    """Run the tool's entry point on job["argv"] inside job["cwd"] and record every evidence ingestion it
+    performs: the returned peptide list, the number of files, and whether the call left the caller's list of
+    peptide-to-protein maps as it found it.  how = "inproc": picked_group_fdr.main(argv) in this process;
+    "cli": `python -m picked_group_fdr argv` (runpy) in a process of its own (see entry_cli)."""
+    import traceback
+
+    from picked_group_fdr.parsers import evidence
+
+    cwd = job["cwd"]
+    calls = []
+    original = evidence.parse_evidence_files
+
+    def tables():
+        """name -> text of the protein group tables written so far (several methods of one run may write to the
+        same name one after the other, so the text is kept, not the name)"""
+        out = {}
+        for f in sorted(os.listdir(cwd)):
+            if f.startswith("proteinGroups"):
+                with open(os.path.join(cwd, f), newline="", encoding="utf-8", errors="replace") as fh:
+                    out[f] = fh.read()
+        return out
+
+    def recorder(evidence_files, peptide_to_protein_maps, *a, **kw):
+        is_list = isinstance(peptide_to_protein_maps, list)
+        before = list(peptide_to_protein_maps) if is_list else None
+        ls = tables()
+        res = original(evidence_files, peptide_to_protein_maps, *a, **kw)
+        after = list(peptide_to_protein_maps) if is_list else None
+        calls.append({
+            "nfiles": len(evidence_files),
+            "pil": _pil_json(res),
+            "nmaps": [len(before), len(after)] if is_list else None,
+            "maps_same": (not is_list) or (len(before) == len(after) and all(x is y for x, y in zip(before, after))),
+            "_ls": ls,
+        })
+        return res
+
+    out = {"calls": calls}
+    old_cwd, old_argv = os.getcwd(), list(sys.argv)
+    evidence.parse_evidence_files = recorder
+    try:
+        os.chdir(cwd)
+        if job["how"] == "cli":
+            import runpy
+
+            sys.argv = ["picked_group_fdr"] + list(job["argv"])
+            runpy.run_module("picked_group_fdr", run_name="__main__", alter_sys=True)
+        else:
+            from picked_group_fdr import picked_group_fdr as pgfdr
+
+            pgfdr.main(list(job["argv"]))
+    except KeyboardInterrupt:
+        raise
+    except BaseException as e:
+        tb = traceback.format_exc()
+        if _degenerate(str(e), tb):
+            out["err"] = "no_ranked_groups"
+        else:
+            out.update({"exc": type(e).__name__, "msg": str(e)[:300], "tb": tb[-1200:]})
+    finally:
+        evidence.parse_evidence_files = original
+        sys.argv = old_argv
+        os.chdir(old_cwd)
+    # the table each method wrote = the file that appeared or changed between two ingestions
+    final = tables()
+    for i, c in enumerate(calls):
+        nxt = calls[i + 1]["_ls"] if i + 1 < len(calls) else final
+        new = [f for f in nxt if c["_ls"].get(f) != nxt[f]]
+        c["groups"] = None
+        if len(new) == 1:
+            try:
+                rows = list(csv.reader(nxt[new[0]].splitlines(), delimiter="\t"))
+                col = rows[0].index("Protein IDs")
+                c["groups"] = [r[col].split(";") for r in rows[1:]]
+            except Exception as e:  # unreadable table
+                c["groups"] = {"unreadable": "%s: %s" % (type(e).__name__, e)}
+    for c in calls:
+        del c["_ls"]
+    return out
+
+
+def entry_cli():
+    """process entry of a "cli" job: `python -c '...; props.C10.entry_cli()' job.json`"""
+    import json
+
+    job = json.loads(Path(sys.argv[1]).read_text())
+    res = record_entry(job)
+    Path(job["result"]).write_text(json.dumps(res))
+
+
+def run_job(job):
+    """one entry-point run; "cli" jobs get a process of their own with the tree under test first on the path"""
+    if job["how"] != "cli":
+        return record_entry(job)
+    import json
+    import subprocess
+
+    jf = os.path.join(job["cwd"], "job.json")
+    job = dict(job, result=os.path.join(job["cwd"], "result.json"))
+    Path(jf).write_text(json.dumps(job))
+    code = "import sys; sys.path.append(%r); import props.C10 as m; m.entry_cli()" % HARNESS_DIR
+    p = subprocess.run([lib.PY, "-c", code, jf], env=lib.impl_env(), cwd=job["cwd"], capture_output=True, text=True, timeout=600)
+    if os.path.exists(job["result"]):
+        res = json.loads(Path(job["result"]).read_text())
+        os.unlink(job["result"])
+        os.unlink(jf)
+        return res
+    last = (p.stderr.strip().splitlines() or [""])[-1]
+    return {"calls": [], "exc": "CLI", "msg": last[:300], "tb": p.stderr[-1200:]}
+
+
+def digest_args(run):
+    argv = []
+    dg = eff_digest(run)
+    for flag, k in DIGEST_FLAGS:
+        vals = [str(p[k]) for p in dg]
+        if len(set(vals)) == 1:
+            vals = vals[:1]
+        argv += [flag, *vals]
+    return argv
+
+
+def run_orders(run):
+    """the entry-point runs of one scenario: the methods in the given order; with several methods also the
+    reversed order and every method alone"""
+    ms = list(run["methods"])
+    orders = [("fwd", ms)]
+    if len(ms) > 1:
+        orders.append(("rev", ms[::-1]))
+        orders += [("alone%d" % i, [m]) for i, m in enumerate(ms)]
+    return orders
+
+
+def run_scenario(run, submit=None):
+    """write the inputs of a run once, then perform every run of run_orders on them (each in a directory of its
+    own).  -> {"fwd": R, "rev": R, "alone": [R...]},  R = {"calls": [...], "err"/"exc"...} of record_entry"""
+    d = tempfile.mkdtemp(prefix="pgfdr_c10run_")
+    try:
+        argv_in = []
+        for fam in sorted(run["inputs"]):
+            inp = run["inputs"][fam]
+            m = next(m for m in run["methods"] if family_of(method_score_type(m)) == fam)
+            paths = render({"method": m, "mokapot": inp.get("mokapot", False), "colseed": inp.get("colseed", 0), "files": inp["files"]}, d)
+            argv_in += [FAMILY_FLAG[fam], *paths]
+        if run.get("fasta"):
+            fps = []
+            for n, recs in enumerate(run["fasta"]):
+                fp = os.path.join(d, f"db{n}.fasta")
+                with open(fp, "w", encoding="utf-8") as fh:
+                    for h, s in recs:
+                        fh.write(">" + h + "\n")
+                        for a in range(0, len(s), 7):
+                            fh.write(s[a : a + 7] + "\n")
+                fps.append(fp)
+            argv_in += ["--fasta", *fps] + (["--fasta_contains_decoys"] if run.get("decoys_in_fasta") else []) + digest_args(run)
+        elif run.get("maps"):
+            mps = []
+            for k, m in enumerate(run["maps"]):
+                f = os.path.join(d, f"map{k}.tsv")
+                with open(f, "w", newline="", encoding="utf-8") as fh:
+                    w = csv.writer(fh, delimiter="\t")
+                    for pep, ps in m:
+                        w.writerow([pep, ";".join(ps)])
+                mps.append(f)
+            argv_in += ["--peptide_protein_map", *mps]
+        jobs = []
+        orders = run_orders(run)
+        for name, ms in orders:
+            cwd = os.path.join(d, name)
+            os.mkdir(cwd)
+            argv = ["--methods", ",".join(ms)] + argv_in + ["--protein_groups_out", os.path.join(cwd, "proteinGroups.txt"), "--suppress_missing_peptide_warning"]
+            jobs.append({"argv": argv, "cwd": cwd, "how": run.get("via", "inproc")})
+        if submit is not None:
+            futs = [submit(lib._safe, run_job, j) for j in jobs]
+            results = [f.result() for f in futs]
+        else:
+            results = [lib._safe(run_job, j) for j in jobs]
+        results = [r if "calls" in r else dict(r, calls=[]) for r in results]
+        out = {"fwd": results[0]}
+        if len(orders) > 1:
+            out["rev"] = results[1]
+            out["alone"] = results[2:]
+        return out
+    finally:
+        shutil.rmtree(d, ignore_errors=True)
+
+
+def run_shared(sh):
+    """parsers.evidence.parse_evidence_files called once per entry of sh["calls"] with ONE list of maps, the way
+    run_picked_group_fdr hands its list to every method"""
+    import copy
+
+    from picked_group_fdr import methods
+    from picked_group_fdr.parsers import evidence
+
+    maps = [dict((k, list(v)) for k, v in m) for m in sh["maps"]] if sh["maps"] else [None]
+    pristine = copy.deepcopy(maps)
+    outs = []
+    for c in sh["calls"]:
+        fmt, _ = fmt_of(method_score_type(c["method"]), c.get("mokapot", False))
+        if fmt == "diann" and not pandas_grid_ok():
+            raise RuntimeError("pandas float parser disagrees with float() on the PEP literal grid")
+        if fmt == "sage" and not pow_grid_ok():
+            raise RuntimeError("np.power(10, x) is not correctly rounded on the exponent grid")
+        cfg = methods.parse_method_toml(c["method"], False)
+        d = tempfile.mkdtemp(prefix="pgfdr_c10sh_")
+        try:
+            paths = render(c, d)
+            before = list(maps)
+            res = evidence.parse_evidence_files(paths, maps, cfg.score_type, True)
+            outs.append({
+                "pil": _pil_json(res),
+                "nmaps": [len(before), len(maps)],
+                "maps_same": len(before) == len(maps) and all(x is y for x, y in zip(before, maps)) and maps == pristine,
+            })
+        finally:
+            shutil.rmtree(d, ignore_errors=True)
+    return {"shared": outs}
+
+
 def py_strops(s):
     """the string operations ingestion uses, as the implementation / CPython perform them"""
     from picked_group_fdr import helpers
@@ -368,7 +683,16 @@ class P(Prop):
         "DIA-NN tsv via pandas); 2-4 bare peptides per case spelled with 0-2 modification tokens (nested MaxQuant "
         "parentheses included), PEPs from a 12-point grid so ties are common, NaN/empty PEP cells, protein lists mixing "
         "targets, REV__/rev_ decoys and contaminants, digest maps that omit some peptides, rows and columns shuffled; "
-        "non-trivial = at least two scored PSMs compete for one stripped peptide and the result is non-empty"
+        "non-trivial = at least two scored PSMs compete for one stripped peptide and the result is non-empty. "
+        "8 % of the cases call parse_evidence_files 2-3 times (methods of different input types, 1-4 files each, different "
+        "counts) with ONE shared list of maps; 6 % run the entry point picked_group_fdr.main in process (1-3 methods of "
+        "different input types with different numbers of files; maps built by the tool from a generated FASTA of 3-5 "
+        "proteins over 8 tryptic blocks with one digestion-parameter set or one per evidence file -- enzyme, missed "
+        "cleavages, length window, special residues, full/semi differ between files -- or read from map files; PSM peptides "
+        "drawn from the union of the per-file digests so that some are known only to another file's digest), repeated "
+        "in the reversed method order and per method alone; non-trivial there = several methods or several maps and "
+        "every method ingests something. The extra stage repeats 15 (quick) / 150 (thorough) such scenarios with every "
+        "run in a process of its own"
     )
     assumptions = [
         "csv.reader/float() re-read repr(float) cells exactly; pandas' C float parser agrees with float() on the 12 PEP literals (asserted per process)",
@@ -424,14 +748,7 @@ class P(Prop):
         rng.shuffle(ps)
         return ps
 
-    def gen_case(self, rng, tier):
-        classes = shipped_nonrazor()
-        st = rng.choice(list(classes))
-        method = rng.choice(classes[st])
-        mokapot = "Perc" in st and rng.random() < 0.5
-        fmt, remap = fmt_of(st, mokapot)
-        bares = rng.sample(BARE, rng.choice([2, 2, 3, 4]))
-        nfiles = rng.choice([1, 1, 2, 2, 3])
+    def _gen_files(self, rng, fmt, bares, nfiles):
         files = []
         for _ in range(nfiles):
             nrows = rng.choice([0, 1, 2, 3, 4, 5, 6, 8])
@@ -483,23 +800,205 @@ class P(Prop):
                     if has != f0:
                         r["bare"] = None
             files.append(rows)
+        return files
+
+    def _gen_maps(self, rng, pool, nmaps, cli=False):
+        """digest maps over the peptide pool; cli=True: what a --peptide_protein_map file can express (every entry
+        names a protein, no empty map)"""
+        maps = []
+        for _ in range(nmaps):
+            m = []
+            for b in pool:
+                if rng.random() < 0.75:
+                    ps = self._proteins(rng)
+                    if "" in ps:
+                        ps = [p for p in ps if p] or ["T1"]
+                    m.append([b, ps if (cli or rng.random() < 0.97) else []])
+            if cli and not m:
+                m.append([pool[0], ["T1"]])
+            rng.shuffle(m)
+            maps.append(m)
+        return maps
+
+    def gen_case(self, rng, tier):
+        u = rng.random()
+        if u < 0.08:
+            return {"shared": self.gen_shared(rng)}
+        if u < 0.08 + RUN_SHARE:
+            return {"run": self.gen_run(rng, "inproc")}
+        classes = shipped_nonrazor()
+        st = rng.choice(list(classes))
+        method = rng.choice(classes[st])
+        mokapot = "Perc" in st and rng.random() < 0.5
+        fmt, remap = fmt_of(st, mokapot)
+        bares = rng.sample(BARE, rng.choice([2, 2, 3, 4]))
+        nfiles = rng.choice([1, 1, 2, 2, 3])
+        files = self._gen_files(rng, fmt, bares, nfiles)
         maps = []
         if remap:
             nmaps = 1 if (nfiles == 1 or rng.random() < 0.65) else nfiles
             if nfiles == 3 and rng.random() < 0.08:
                 nmaps = 2  # caller error: zip() pairs two maps with the first two files, the third file is not read
             pool = bares + [b for b in BARE if b not in bares][:1]
-            for _ in range(nmaps):
-                m = []
-                for b in pool:
-                    if rng.random() < 0.75:
-                        ps = self._proteins(rng)
-                        if "" in ps:
-                            ps = [p for p in ps if p] or ["T1"]
-                        m.append([b, ps if rng.random() < 0.97 else []])
-                rng.shuffle(m)
-                maps.append(m)
+            maps = self._gen_maps(rng, pool, nmaps)
         return {"method": method, "mokapot": mokapot, "colseed": rng.randint(0, 999), "maps": maps, "files": files}
+
+    # several methods, one list of maps ----------------------------------------------------------
+    def _pick_methods(self, rng, n, want_two_remap):
+        """n shipped non-razor methods of distinct score types; want_two_remap: a MaxQuant-input and a
+        Percolator-input remapping method among them (they share the map list but read different files)"""
+        classes = shipped_nonrazor()
+        sts = list(classes)
+        chosen = []
+        if want_two_remap and n >= 2:
+            mq = [st for st in sts if family_of(st) == "maxquant" and fmt_of(st, False)[1]]
+            pc = [st for st in sts if family_of(st) == "perc" and fmt_of(st, False)[1]]
+            if mq and pc:
+                chosen = [rng.choice(mq), rng.choice(pc)]
+        rest = [st for st in sts if st not in chosen]
+        rng.shuffle(rest)
+        chosen += rest[: max(0, n - len(chosen))]
+        rng.shuffle(chosen)
+        return [rng.choice(classes[st]) for st in chosen]
+
+    def _file_counts(self, rng, fams):
+        """a different number of files per input type (1-4)"""
+        pool = [1, 2, 2, 3, 3, 4]
+        counts, out = [], {}
+        for fam in fams:
+            c = rng.choice([x for x in pool if x not in counts] or pool)
+            counts.append(c)
+            out[fam] = c
+        return out
+
+    def gen_shared(self, rng):
+        ncalls = rng.choice([2, 2, 3])
+        ms = self._pick_methods(rng, ncalls, rng.random() < 0.7)
+        fams = []
+        for m in ms:
+            f = family_of(method_score_type(m))
+            if f not in fams:
+                fams.append(f)
+        counts = self._file_counts(rng, fams)
+        bares = rng.sample(BARE, rng.choice([2, 3, 3, 4]))
+        calls = []
+        for m in ms:
+            st = method_score_type(m)
+            mokapot = "Perc" in st and rng.random() < 0.5
+            fmt, _ = fmt_of(st, mokapot)
+            nf = counts[family_of(st)] if rng.random() < 0.9 else rng.choice([1, 2, 3])
+            calls.append({"method": m, "mokapot": mokapot, "colseed": rng.randint(0, 999), "files": self._gen_files(rng, fmt, bares, nf)})
+        any_remap = any(fmt_of(method_score_type(m), False)[1] for m in ms)
+        maps = []
+        if any_remap or rng.random() < 0.3:
+            nmaps = 1 if rng.random() < 0.7 else rng.choice([len(c["files"]) for c in calls])
+            pool = bares + [b for b in BARE if b not in bares][:1]
+            maps = self._gen_maps(rng, pool, nmaps)
+        return {"maps": maps, "calls": calls}
+
+    # runs through the entry point -------------------------------------------------------------------
+    def _gen_fasta(self, rng):
+        names = PROT[: rng.choice([3, 4, 5])]
+        recs = []
+        for n in names:
+            seq = "".join(rng.choice(RUN_BLOCKS) for _ in range(rng.choice([2, 3, 3, 4])))
+            if rng.random() < 0.25:
+                seq = "M" + seq
+            recs.append([n + rng.choice(["", " protein " + n, " OS=Homo sapiens GN=G" + n[1:]]), seq])
+        decoys_in = rng.random() < 0.4
+        if decoys_in:
+            for h, s in list(recs):
+                if rng.random() < 0.85:
+                    recs.append([("REV__" if rng.random() < 0.8 else "rev_") + h.split(" ")[0], s[::-1]])
+        if len(recs) > 2 and rng.random() < 0.2:
+            cut = rng.randint(1, len(recs) - 1)
+            return [recs[:cut], recs[cut:]], decoys_in
+        return [recs], decoys_in
+
+    def _gen_digest(self, rng, n):
+        """n parameter sets; n > 1: at least one parameter differs between the first two files"""
+        opts = {"enzyme": ["trypsin", "trypsin", "trypsinp", "lys-c", "arg-c"], "mc": [0, 1, 2, 2], "min": [5, 5, 6, 10],
+                "max": [60, 60, 15, 10, 5], "special": ["KR", "KR", "none"], "mode": ["full", "full", "full", "semi"]}
+        base = {k: rng.choice(v) for k, v in opts.items()}
+        if base["min"] > base["max"]:
+            base["min"] = 5
+        if n <= 1:
+            return [base]
+        vary = rng.sample(["mc", "mc", "enzyme", "min", "max", "special", "mode"], rng.choice([1, 1, 2]))
+        dg = []
+        for i in range(n):
+            p = dict(base)
+            for k in set(vary):
+                p[k] = rng.choice(opts[k])
+            dg.append(p)
+        k = vary[0]
+        if all(p == dg[0] for p in dg):
+            dg[1][k] = next(v for v in opts[k] if v != dg[0][k])
+        return dg
+
+    def gen_run(self, rng, via):
+        nm = rng.choice([1, 1, 2, 2, 2, 3])
+        ms = self._pick_methods(rng, nm, rng.random() < 0.75)
+        remaps = [m for m in ms if fmt_of(method_score_type(m), False)[1]]
+        if nm == 1 and not remaps and rng.random() < 0.8:
+            classes = shipped_nonrazor()
+            st = rng.choice([st for st in classes if fmt_of(st, False)[1]])
+            ms = [rng.choice(classes[st])]
+            remaps = list(ms)
+        fams = []
+        for m in ms:
+            f = family_of(method_score_type(m))
+            if f not in fams:
+                fams.append(f)
+        if len(fams) == 1:
+            counts = {fams[0]: rng.choice([1, 2, 2, 3, 3, 4])}
+        else:
+            counts = self._file_counts(rng, fams)
+        remap_counts = sorted({counts[family_of(method_score_type(m))] for m in remaps})
+        run = {"methods": ms, "inputs": {}, "fasta": None, "decoys_in_fasta": False, "digest": [], "maps": [], "via": via}
+        use_fasta = bool(remaps) and rng.random() < 0.7 or (not remaps and rng.random() < 0.3)
+        # how many maps: one for all files, or one per file of the remapping methods (a second remapping method
+        # with another number of files then meets zip()'s truncation, rarely generated)
+        nmaps = 1
+        if remap_counts and remap_counts[-1] > 1:
+            if len(remap_counts) == 1 and rng.random() < 0.75:
+                nmaps = remap_counts[0]
+            elif len(remap_counts) > 1 and rng.random() < 0.12:
+                nmaps = rng.choice(remap_counts)
+        if use_fasta:
+            run["fasta"], run["decoys_in_fasta"] = self._gen_fasta(rng)
+            run["digest"] = self._gen_digest(rng, nmaps)
+            maps = [dict((k, v) for k, v in m) for m in own_digest_maps(run)]
+            union = sorted(set().union(*[set(m) for m in maps])) if maps else []
+            short = [k for k in union if len(k) <= 16] or union
+            diff = [k for k in short if not all(k in m for m in maps)]
+            common = [k for k in short if all(k in m for m in maps)]
+            decoy = [k for k in short if any(o_decoy_list(m[k]) for m in maps if k in m)]
+            bares = []
+            for pool, k in ((diff, rng.choice([1, 2, 3])), (common, rng.choice([1, 2])), (decoy, 1)):
+                for b in rng.sample(pool, min(len(pool), k)):
+                    if b not in bares:
+                        bares.append(b)
+            unknown = [b for b in BARE + ["NAQQKAAAAK"] if b not in union]
+            if unknown and (rng.random() < 0.5 or len(bares) < 2):
+                bares.append(rng.choice(unknown))
+            while len(bares) < 2:
+                bares.append(rng.choice([b for b in BARE if b not in bares]))
+        else:
+            bares = rng.sample(BARE, rng.choice([2, 3, 3, 4]))
+            if remaps or rng.random() < 0.3:
+                pool = bares + [b for b in BARE if b not in bares][:1]
+                run["maps"] = self._gen_maps(rng, pool, nmaps, cli=True)
+        for fam in fams:
+            st = next(method_score_type(m) for m in ms if family_of(method_score_type(m)) == fam)
+            mokapot = fam == "perc" and rng.random() < 0.5
+            fmt, _ = fmt_of(st, mokapot)
+            for _ in range(5):
+                files = self._gen_files(rng, fmt, bares, counts[fam])
+                if sum(len(f) for f in files) > 0:
+                    break
+            run["inputs"][fam] = {"mokapot": mokapot, "colseed": rng.randint(0, 999), "files": files}
+        return run
 
     # -- the implementation ---------------------------------------------------------------
     def run_impl(self, case):
@@ -510,6 +1009,10 @@ class P(Prop):
             return {"strops": py_strops(case["strops"])}
         if "cli" in case:
             return run_cli(case["cli"])
+        if "shared" in case:
+            return run_shared(case["shared"])
+        if "run" in case:
+            return run_scenario(case["run"])
         st = method_score_type(case["method"])
         fmt, remap = fmt_of(st, case.get("mokapot", False))
         if fmt == "diann" and not pandas_grid_ok():
@@ -522,31 +1025,77 @@ class P(Prop):
             paths = render(case, d)
             maps = [dict((k, list(v)) for k, v in m) for m in case["maps"]] if case["maps"] else [None]
             res = evidence.parse_evidence_files(paths, maps, cfg.score_type, True)
-            pil = [[k, "nan" if v[0] != v[0] else rat(float(v[0])), list(v[1])] for k, v in res.items()]
+            pil = _pil_json(res)
         finally:
             shutil.rmtree(d, ignore_errors=True)
         return {"pil": pil}
 
     # -- the model ---------------------------------------------------------------------------
+    @staticmethod
+    def _ingest_req(c):
+        files = [
+            [{"pep": r["pep"], "mod": r.get("mod", ""), "score": r["score"], "prot": r["prot"], "decoy": bool(r.get("decoy"))} for r in rows]
+            for rows in c["files"]
+        ]
+        return {"op": "ingest", "method": c["method"], "mokapot": bool(c.get("mokapot")), "maps": c["maps"], "files": files}
+
     def model_request(self, case, impl_out):
         if "cli" in case:
             return None
         if "strops" in case:
             return {"op": "c10_strops", "strings": [case["strops"]]}
-        files = [
-            [{"pep": r["pep"], "mod": r.get("mod", ""), "score": r["score"], "prot": r["prot"], "decoy": bool(r.get("decoy"))} for r in rows]
-            for rows in case["files"]
-        ]
-        return {"op": "ingest", "method": case["method"], "mokapot": bool(case.get("mokapot")), "maps": case["maps"], "files": files}
+        if "shared" in case:
+            sh = case["shared"]
+            return [self._ingest_req(dict(c, maps=sh["maps"])) for c in sh["calls"]]
+        if "run" in case:
+            run = case["run"]
+            maps = run_maps(run)
+            return [self._ingest_req(sub_case(run, m, maps)) for m in run["methods"]]
+        return self._ingest_req(case)
+
+    @staticmethod
+    def _model_pil(resp):
+        if isinstance(resp, dict) and "pil" in resp:
+            return [[k, rat(fl(s)), ps] for k, s, ps in resp["pil"]]
+        return resp
+
+    @staticmethod
+    def _run_view(R, pils):
+        """what is compared of one entry-point run: the peptide list of every ingestion, in order.  A run that ends
+        in the degenerate `no_ranked_groups` stops after the ingestion of the method that has no ranked group."""
+        if not isinstance(R, dict):
+            return R
+        if R.get("err") == "no_ranked_groups":
+            pils = pils[: len(R.get("calls", []))]
+        return {"pils": pils, "err": R.get("err"), "exc": R.get("exc")}
 
     def model_view(self, case, resp, impl_out):
         if "strops" in case:
             return {"strops": resp["out"][0]} if isinstance(resp, dict) and "out" in resp else resp
+        if "shared" in case:
+            return {"shared": [self._model_pil(r) for r in resp]}
+        if "run" in case:
+            run = case["run"]
+            M = {m: self._model_pil(r) for m, r in zip(run["methods"], resp)}
+            out = {}
+            io = impl_out if isinstance(impl_out, dict) else {}
+            for name, ms in run_orders(run):
+                R = io.get(name) if not name.startswith("alone") else (io.get("alone") or [None] * len(run["methods"]))[int(name[5:])]
+                out[name] = self._run_view(R if isinstance(R, dict) else {}, [M[m] for m in ms])
+            return out
         if isinstance(resp, dict) and "pil" in resp:
-            return {"pil": [[k, rat(fl(s)), ps] for k, s, ps in resp["pil"]]}
+            return {"pil": self._model_pil(resp)}
         return resp
 
     def impl_view(self, case, impl_out):
+        if "shared" in case and isinstance(impl_out, dict) and "shared" in impl_out:
+            return {"shared": [o["pil"] for o in impl_out["shared"]]}
+        if "run" in case and isinstance(impl_out, dict) and "fwd" in impl_out:
+            out = {}
+            for name, ms in run_orders(case["run"]):
+                R = impl_out.get(name) if not name.startswith("alone") else impl_out["alone"][int(name[5:])]
+                out[name] = self._run_view(R, [c["pil"] for c in R.get("calls", [])])
+            return out
         if isinstance(impl_out, dict) and "pil" in impl_out:
             return {"pil": impl_out["pil"]}
         return impl_out
@@ -557,15 +1106,23 @@ class P(Prop):
             return None
         if "cli" in case:
             return self.cli_oracle(case["cli"], impl_out)
+        if "shared" in case:
+            return self.shared_oracle(case["shared"], impl_out)
+        if "run" in case:
+            return self.run_oracle(case["run"], impl_out)
         if isinstance(impl_out, dict) and "exc" in impl_out:
             return "ingestion raised %s: %s where a peptide list was expected" % (impl_out["exc"], impl_out.get("msg", ""))
         if not isinstance(impl_out, dict) or "pil" not in impl_out:
             return "no peptide list returned: %r" % (impl_out,)
         want, _ = expected(case)
-        for k, s, ps in impl_out["pil"]:
+        return self.judge(want, impl_out["pil"])
+
+    def judge(self, want, pil):
+        """the property on one ingested peptide list: `want` = expected(case)[0]"""
+        for k, s, ps in pil:
             if s == "nan":
                 return f"peptide {k} reported with a NaN score (rows without a PEP must be ignored)"
-        got = [(k, unrat(s), ps) for k, s, ps in impl_out["pil"]]
+        got = [(k, unrat(s), ps) for k, s, ps in pil]
         gk, wk = [g[0] for g in got], [w[0] for w in want]
         if sorted(gk) != sorted(wk):
             extra = sorted(set(gk) - set(wk))
@@ -588,6 +1145,77 @@ class P(Prop):
                     return f"peptide {k}: protein list {ps} mixes targets and decoys"
         return None
 
+    @staticmethod
+    def _maps_untouched(c):
+        if c.get("maps_same", True) and (not c.get("nmaps") or c["nmaps"][0] == c["nmaps"][1]):
+            return None
+        n = c.get("nmaps") or ["?", "?"]
+        return (
+            f"the caller's list of peptide-to-protein maps was changed by the ingestion (length {n[0]} before, {n[1]} after): "
+            "the list is shared by all methods of a run, so a later method is paired with maps that are not its own"
+        )
+
+    def shared_oracle(self, sh, out, check_list=True):
+        """several ingestions handed ONE list of maps: each gives what it gives on its own, the list stays as it was"""
+        if isinstance(out, dict) and "exc" in out:
+            return "ingestion raised %s: %s where a peptide list was expected" % (out["exc"], out.get("msg", ""))
+        if not isinstance(out, dict) or "shared" not in out or len(out["shared"]) != len(sh["calls"]):
+            return "no peptide list per ingestion returned: %r" % (out,)
+        for i, (c, o) in enumerate(zip(sh["calls"], out["shared"])):
+            want, _ = expected(dict(c, maps=sh["maps"]))
+            why = self.judge(want, o["pil"])
+            if why:
+                return f"ingestion {i + 1} of {len(sh['calls'])} ({c['method']}, {len(c['files'])} files, same map list as the ingestions before it): {why}"
+        for i, (c, o) in enumerate(zip(sh["calls"], out["shared"])):
+            why = self._maps_untouched(o) if check_list else None
+            if why:
+                return f"ingestion {i + 1} of {len(sh['calls'])} ({c['method']}, {len(c['files'])} files): {why}"
+        return None
+
+    def run_oracle(self, run, out):
+        """every method of every entry-point run ingests what the property says for ITS files and ITS digests
+        (maps from the harness's own digest of the FASTA, per file); the same in both method orders and alone;
+        written tables are pure and name only ingested proteins"""
+        if isinstance(out, dict) and "exc" in out and "fwd" not in out:
+            return "run raised %s: %s" % (out["exc"], out.get("msg", ""))
+        if not isinstance(out, dict) or "fwd" not in out:
+            return "no run result: %r" % (out,)
+        maps = run_maps(run)
+        want = {m: expected(sub_case(run, m, maps))[0] for m in run["methods"]}
+        per_method = {}
+        for name, ms in run_orders(run):
+            R = out.get(name) if not name.startswith("alone") else out["alone"][int(name[5:])]
+            where = "--methods " + ",".join(ms)
+            if not isinstance(R, dict):
+                return f"{where}: no result {R!r}"
+            if "exc" in R:
+                return f"{where}: the run failed with {R['exc']}: {R.get('msg', '')}"
+            calls = R.get("calls", [])
+            if len(calls) != len(ms) and not (R.get("err") == "no_ranked_groups" and 0 < len(calls) <= len(ms)):
+                return f"{where}: {len(calls)} evidence ingestions recorded for {len(ms)} methods"
+            for m, c in zip(ms, calls):
+                nf = len(run["inputs"][family_of(method_score_type(m))]["files"])
+                tag = f"{where}: method {m} ({nf} files)"
+                if c["nfiles"] != nf:
+                    return f"{tag}: {c['nfiles']} evidence files handed to the ingestion"
+                why = self.judge(want[m], c["pil"])
+                if why:
+                    return f"{tag}: {why}"
+                # (a map list altered by an ingestion is not a verdict here: if it matters, a method of one of the
+                # two orders ingests a wrong list, which is what the lines above report; see features)
+                if isinstance(c.get("groups"), dict):
+                    return f"{tag}: written table unreadable: {c['groups']}"
+                if c.get("groups") is not None:
+                    why = self.groups_verdict(want[m], c["groups"])
+                    if why:
+                        return f"{tag}: {why}"
+                per_method.setdefault(m, []).append((where, c["pil"]))
+        for m, seen in per_method.items():
+            for where, pil in seen[1:]:
+                if pil != seen[0][1]:
+                    return f"method {m} ingests {pil} in the run `{where}` but {seen[0][1]} in the run `{seen[0][0]}` on the same files"
+        return None
+
     def cli_oracle(self, case, out):
         """purity of the table the command line wrote: every reported group is a decoy group or lists no decoy;
         and every reported protein is one the ingested list names"""
@@ -598,8 +1226,11 @@ class P(Prop):
         if "groups" not in out:
             return "command line failed: %s" % (out.get("msg"),)
         want, _ = expected(case)
+        return self.groups_verdict(want, out["groups"])
+
+    def groups_verdict(self, want, groups):
         known = {p for _, _, ps in want for p in ps}
-        for g in out["groups"]:
+        for g in groups:
             if all(self._wellformed_id(p) for p in g):
                 if any(o_is_decoy_id(p) for p in g) and not o_decoy_list(g):
                     return f"reported protein group {g} mixes targets and decoys"
@@ -612,7 +1243,7 @@ class P(Prop):
     # repair not be applied): the method remaps, some digest map holds exactly two peptides, ingestion dies
     # with KeyError: 0 in digest.get_proteins
     def two_peptide_digest_map(self, case, impl_out, rec=None):
-        if "cli" in case or "strops" in case:
+        if "cli" in case or "strops" in case or "shared" in case or "run" in case:
             return False
         _, remap = fmt_of(method_score_type(case["method"]), case.get("mokapot", False))
         return (
@@ -636,14 +1267,82 @@ class P(Prop):
     def nontrivial(self, case, impl_out):
         if "strops" in case or "cli" in case:
             return False
+        if "shared" in case:
+            sh = case["shared"]
+            return len(sh["calls"]) > 1 and all(expected(dict(c, maps=sh["maps"]))[0] for c in sh["calls"])
+        if "run" in case:
+            run = case["run"]
+            maps = run_maps(run)
+            return (len(run["methods"]) > 1 or len(maps) > 1) and all(expected(sub_case(run, m, maps))[0] for m in run["methods"])
         want, info = expected(case)
         return bool(want) and info["scored"] > len(want)
+
+    @staticmethod
+    def run_sensitivity(run):
+        """which glue a run exercises: (a PSM whose peptide its own file's digest does not know but another
+        file's does, a later remapping method with more files than an earlier one that has >= 2)"""
+        maps = run_maps(run)
+        elsewhere = later_more = False
+        rem = [m for m in run["methods"] if fmt_of(method_score_type(m), False)[1]]
+        if len(maps) > 1:
+            dm = [dict((k, v) for k, v in m) for m in maps]
+            for m in rem:
+                for i, rows in enumerate(sub_case(run, m, maps)["files"][: len(dm)]):
+                    for r in rows:
+                        b = r.get("bare")
+                        if b is not None and not dm[i].get(b) and any(d.get(b) for d in dm):
+                            elsewhere = True
+        for order in (rem, rem[::-1]):
+            ns = [len(run["inputs"][family_of(method_score_type(m))]["files"]) for m in order]
+            for i in range(len(ns)):
+                for j in range(i + 1, len(ns)):
+                    if ns[i] >= 2 and ns[j] > ns[i] and not later_more:
+                        # ... and the files beyond the earlier method's count matter to the later method
+                        sc = sub_case(run, order[j], maps)
+                        later_more = expected(sc)[0] != expected(dict(sc, files=sc["files"][: ns[i]]))[0]
+        return elsewhere, later_more
 
     def features(self, case, impl_out):
         if "strops" in case:
             return ["strops"]
         if "cli" in case:
             return ["cli"]
+        if "shared" in case:
+            sh = case["shared"]
+            ns = [len(c["files"]) for c in sh["calls"]]
+            f = ["shared_map_list", "shared_calls=%d" % len(ns), "shared_maps=%d" % len(sh["maps"])]
+            if len(set(ns)) > 1:
+                f.append("shared_different_file_counts")
+            if len(sh["maps"]) == 1 and any(ns[i] >= 2 and any(n > ns[i] for n in ns[i + 1:]) for i in range(len(ns))):
+                f.append("shared_later_call_more_files")
+            return f
+        if "run" in case:
+            run = case["run"]
+            maps = run_maps(run)
+            f = ["run:" + run.get("via", "inproc"), "run_methods=%d" % len(run["methods"]),
+                 "run_maps_from=" + ("fasta" if run.get("fasta") else "map_files" if run.get("maps") else "none"),
+                 "run_maps=%d" % len(maps)]
+            f += ["run_input=" + fam for fam in sorted(run["inputs"])]
+            if len({len(i["files"]) for i in run["inputs"].values()}) > 1:
+                f.append("run_different_file_counts")
+            if run.get("fasta") and len(maps) > 1:
+                f.append("run_per_file_digestion_params")
+                f += ["run_varies=" + k for _, k in DIGEST_FLAGS if len({str(p[k]) for p in eff_digest(run)}) > 1]
+            e, l = self.run_sensitivity(run)
+            if e:
+                f.append("run_peptide_known_to_other_files_digest_only")
+            if l:
+                f.append("run_later_method_more_files")
+            if isinstance(impl_out, dict):
+                Rs = []
+                for name, ms in run_orders(run):
+                    Rs.append(impl_out.get(name) if not name.startswith("alone") else (impl_out.get("alone") or [{}] * 9)[int(name[5:])])
+                Rs = [R for R in Rs if isinstance(R, dict)]
+                if any(R.get("err") for R in Rs):
+                    f.append("run_no_ranked_groups")
+                if any(self._maps_untouched(c) for R in Rs for c in R.get("calls", [])):
+                    f.append("run_map_list_altered_by_ingestion")
+            return f
         st = method_score_type(case["method"])
         fmt, remap = fmt_of(st, case.get("mokapot", False))
         want, info = expected(case)
@@ -674,6 +1373,25 @@ class P(Prop):
             for i in range(len(s)):
                 yield {"strops": s[:i] + s[i + 1:]}
             return
+        if "shared" in case or "run" in case:
+            # the engine keeps any candidate on which the oracle still fails; a case in which some method ingests
+            # the wrong peptide list must not shrink to one in which only the caller's map list is altered
+            strong = self._wrong_list(case)
+            if not strong and "shared" in case:
+                # only the caller's list is altered so far: show what that does to a LATER ingestion (one more call,
+                # with more files than any before and a PSM in its last file), then shrink that
+                for cand in self._escalate_shared(case["shared"]):
+                    if self._wrong_list(cand):
+                        yield cand
+                        return
+            if "run" in case and case["run"].get("via") == "cli":
+                cands = [{"run": dict(case["run"], via="inproc")}]  # same run without a process of its own
+            else:
+                cands = self._shrink_shared(case["shared"]) if "shared" in case else self._shrink_run(case["run"])
+            for cand in cands:
+                if not strong or self._wrong_list(cand):
+                    yield cand
+            return
         files, maps = case["files"], case["maps"]
         base = {k: case[k] for k in ("method", "mokapot", "colseed")}
         # drop a whole file (and its map if maps are per file)
@@ -696,6 +1414,113 @@ class P(Prop):
             yield dict(base, files=files, maps=maps[:1])
         if case.get("colseed"):
             yield dict(base, files=files, maps=maps, colseed=0)
+
+    def _wrong_list(self, case):
+        """does some ingestion of this shared / run case return a peptide list the property rejects?"""
+        out = lib._safe(self.run_impl, case)
+        if "shared" in case:
+            why = lib._safe(self.shared_oracle, case["shared"], out, False)
+        else:
+            why = lib._safe(self.run_oracle, case["run"], out)
+        return why is not None
+
+    @staticmethod
+    def _escalate_shared(sh):
+        maps = sh["maps"]
+        entry = next(([k, ps] for m in maps for k, ps in m if ps and not any(o_is_decoy_id(p) for p in ps)), None)
+        if entry is None:
+            entry = ["AAAAK", ["T1"]]
+            maps = [[entry] + list(m) for m in maps] if maps else [[entry]]
+        pep, ps = entry
+        nmax = max(len(c["files"]) for c in sh["calls"])
+        for c in sh["calls"]:
+            fmt, remap = fmt_of(method_score_type(c["method"]), c.get("mokapot", False))
+            if not remap:
+                continue
+            row = {"pep": pep, "mod": "", "score": rat(PEP_GRID[0]), "prot": [";".join(ps)], "decoy": False, "bare": pep}
+            if fmt == "maxquant":
+                row["pep"] = "_" + pep + "_"
+            elif fmt == "native":
+                row["prot"] = list(ps)
+            elif fmt == "mokapot":
+                row["prot"] = ["\t".join(ps)]
+            probe = dict(c, files=[[] for _ in range(nmax)] + [[row]])
+            yield {"shared": {"maps": maps, "calls": list(sh["calls"]) + [probe]}}
+
+    @staticmethod
+    def _shrink_files(files):
+        """smaller file lists: without one row, then with one file emptied (the NUMBER of files is kept, it is what
+        the pairing with the maps depends on)"""
+        for i, rows in enumerate(files):
+            for j in range(len(rows)):
+                yield files[:i] + [rows[:j] + rows[j + 1:]] + files[i + 1:]
+
+    def _shrink_shared(self, sh):
+        calls, maps = sh["calls"], sh["maps"]
+        if len(calls) > 1:
+            for i in range(len(calls)):
+                yield {"shared": {"maps": maps, "calls": calls[:i] + calls[i + 1:]}}
+        for i, c in enumerate(calls):
+            if len(c["files"]) > 1:
+                for j in range(len(c["files"])):
+                    yield {"shared": {"maps": maps, "calls": calls[:i] + [dict(c, files=c["files"][:j] + c["files"][j + 1:])] + calls[i + 1:]}}
+        for i, c in enumerate(calls):
+            for fs in self._shrink_files(c["files"]):
+                yield {"shared": {"maps": maps, "calls": calls[:i] + [dict(c, files=fs)] + calls[i + 1:]}}
+        if len(maps) > 1:
+            yield {"shared": {"maps": maps[:1], "calls": calls}}
+        for i, m in enumerate(maps):
+            for j in range(len(m)):
+                yield {"shared": {"maps": maps[:i] + [m[:j] + m[j + 1:]] + maps[i + 1:], "calls": calls}}
+
+    def _shrink_run(self, run):
+        def fams_of(ms):
+            return {family_of(method_score_type(m)) for m in ms}
+
+        ms = run["methods"]
+        # fewer methods (inputs nobody reads go too)
+        if len(ms) > 1:
+            for i in range(len(ms)):
+                ms2 = ms[:i] + ms[i + 1:]
+                yield {"run": dict(run, methods=ms2, inputs={f: v for f, v in run["inputs"].items() if f in fams_of(ms2)})}
+        # fewer files of one input (per-file parameter sets / maps of a single remapping input follow)
+        for fam, inp in sorted(run["inputs"].items()):
+            n = len(inp["files"])
+            if n > 1:
+                for j in range(n):
+                    r2 = dict(run, inputs=dict(run["inputs"], **{fam: dict(inp, files=inp["files"][:j] + inp["files"][j + 1:])}))
+                    if len(run["inputs"]) == 1:
+                        if len(run.get("digest") or []) == n:
+                            r2["digest"] = run["digest"][:j] + run["digest"][j + 1:]
+                        if len(run.get("maps") or []) == n:
+                            r2["maps"] = run["maps"][:j] + run["maps"][j + 1:]
+                    yield {"run": r2}
+        # fewer rows
+        for fam, inp in sorted(run["inputs"].items()):
+            for fs in self._shrink_files(inp["files"]):
+                yield {"run": dict(run, inputs=dict(run["inputs"], **{fam: dict(inp, files=fs)}))}
+        # smaller database
+        if run.get("fasta"):
+            fa = run["fasta"]
+            for i, recs in enumerate(fa):
+                for j in range(len(recs)):
+                    f2 = [r for r in fa[:i] + [recs[:j] + recs[j + 1:]] + fa[i + 1:] if r]
+                    if f2:
+                        yield {"run": dict(run, fasta=f2)}
+            if len(fa) > 1:
+                yield {"run": dict(run, fasta=[[r for recs in fa for r in recs]])}
+            dg = run["digest"]
+            if len(dg) > 1:
+                yield {"run": dict(run, digest=dg[:1])}
+                for _, k in DIGEST_FLAGS:  # one parameter less that differs between the files
+                    if len({str(p[k]) for p in dg}) > 1:
+                        yield {"run": dict(run, digest=[dict(p, **{k: dg[0][k]}) for p in dg])}
+        for i, m in enumerate(run.get("maps") or []):
+            for j in range(len(m)):
+                if len(m) > 1:
+                    yield {"run": dict(run, maps=run["maps"][:i] + [m[:j] + m[j + 1:]] + run["maps"][i + 1:])}
+        if len(run.get("maps") or []) > 1:
+            yield {"run": dict(run, maps=run["maps"][:1])}
 
     # -- extra stage: the string functions on a malformed stream ---------------------------------------
     def extra(self, ctx):
@@ -729,14 +1554,44 @@ class P(Prop):
         cases = []
         while len(cases) < ncli:
             c = self.gen_case(crng, ctx["tier"])
-            if cli_ok(c) and sum(len(f) for f in c["files"]) > 0:
+            if "method" in c and cli_ok(c) and sum(len(f) for f in c["files"]) > 0:
                 cases.append(c)
+        # entry-point runs in processes of their own (`python -m picked_group_fdr ...` with the ingestion recorded):
+        # (a) one remapping method, maps from --fasta, several evidence files each with its own digestion parameters;
+        # (b) several methods in one run, two of them remapping, one map for all files, the method with more files
+        #     (whose last files matter) coming after one with at least two in one of the two orders;
+        # (c) any other run of several methods.  Every scenario of (b)/(c) = both method orders + each method alone.
+        quota = {"a": 6, "b": 6, "c": 3} if ctx["tier"] == "quick" else {"a": 60, "b": 60, "c": 30}
+        if ctx.get("replay"):
+            quota = {}
+        rrng = random.Random(ctx["seed"] * 15485863 + 11)
+        runs = []
+        guard = 0
+        while any(quota.values()) and guard < 20000:
+            guard += 1
+            r = self.gen_run(rrng, "cli")
+            rem = [m for m in r["methods"] if fmt_of(method_score_type(m), False)[1]]
+            if len(r["methods"]) == 1:
+                k = "a" if (r.get("fasta") and rem and len(eff_digest(r)) > 1) else None
+            elif len(run_maps(r)) == 1 and self.run_sensitivity(r)[1]:
+                k = "b"
+            else:
+                k = "c"
+            if k and quota.get(k):
+                quota[k] -= 1
+                runs.append({"run": r})
         stats = {"tables": 0, "no_ranked_groups": 0, "groups": 0, "decoy_groups": 0}
-        if cases:
+        rstats = {"scenarios": len(runs), "entry_point_runs": 0, "ingestions_compared": 0, "tables": 0,
+                  "per_file_digestion_params": 0, "peptide_known_to_other_files_digest_only": 0,
+                  "later_method_more_files": 0, "no_ranked_groups": 0}
+        modelled = 0
+        if cases or runs:
             from concurrent.futures import ThreadPoolExecutor
 
-            with ThreadPoolExecutor(max_workers=8) as ex:
+            with ThreadPoolExecutor(max_workers=16) as ex, ThreadPoolExecutor(max_workers=max(1, len(runs))) as outer:
+                futs = [outer.submit(lib._safe, run_scenario, c["run"], ex.submit) for c in runs]
                 outs = list(ex.map(lambda c: lib._safe(run_cli, c), cases))
+                routs = [f.result() for f in futs]
             for c, o in zip(cases, outs):
                 why = self.cli_oracle(c, o)
                 if isinstance(o, dict) and "groups" in o:
@@ -747,8 +1602,37 @@ class P(Prop):
                     stats["no_ranked_groups"] += 1
                 if why is not None and len(fails) < 3:
                     fails.append({"case": {"cli": c}, "impl": o, "why": why})
+            # model + oracle on the recorded runs
+            reqs = [self.model_request(c, o) for c, o in zip(runs, routs)]
+            flat = [q for r in reqs for q in r]
+            answers = ctx["model"].ask(flat)
+            pos = 0
+            for c, o, r in zip(runs, routs, reqs):
+                resp = answers[pos : pos + len(r)]
+                pos += len(r)
+                mv = lib._safe(self.model_view, c, resp, o)
+                iv = lib._safe(self.impl_view, c, o)
+                why = lib._safe(self.oracle, c, o)
+                if isinstance(why, dict):
+                    why = "oracle crashed: %s %s" % (why.get("exc"), why.get("msg"))
+                modelled += 1
+                e, l = self.run_sensitivity(c["run"])
+                rstats["per_file_digestion_params"] += int(bool(c["run"].get("fasta")) and len(eff_digest(c["run"])) > 1)
+                rstats["peptide_known_to_other_files_digest_only"] += int(e)
+                rstats["later_method_more_files"] += int(l)
+                if isinstance(o, dict) and "fwd" in o:
+                    for R in [o["fwd"], o.get("rev")] + list(o.get("alone") or []):
+                        if isinstance(R, dict):
+                            rstats["entry_point_runs"] += 1
+                            rstats["ingestions_compared"] += len(R.get("calls", []))
+                            rstats["tables"] += sum(1 for k in R.get("calls", []) if isinstance(k.get("groups"), list))
+                            rstats["no_ranked_groups"] += int(R.get("err") == "no_ranked_groups")
+                if (why is not None or iv != mv) and len(fails) < 3:
+                    fails.append({"case": c, "impl": o, "why": why, "disagree": None if iv == mv else {"impl": iv, "model": mv}})
         return {
-            "evaluations": len(strings) + len(cases),
+            "evaluations": len(strings) + len(cases) + len(runs),
             "failures": fails,
-            "info": {"string_ops_compared": len(strings), "cli_runs": len(cases), "cli": stats},
+            "modelled": modelled,
+            "distinct_nontrivial": sum(1 for c, o in zip(runs, routs) if self.nontrivial(c, o)) if runs else 0,
+            "info": {"string_ops_compared": len(strings), "cli_runs": len(cases), "cli": stats, "entry_point_scenarios_in_own_process": rstats},
         }
